@@ -34,16 +34,15 @@ Definition spec_demands (s : outcome) (o : obs) : bool :=
   | _, _ => false
   end.
 
-(* v_class = 0 exactly inside the two guards of C12_binds_exactly (the model is the present code, pre = false).
-   Outside them the two listed findings are the classes 5 and 6 ONLY when the faithful model reproduces the
-   observation bug for bug; an observation outside the guards that neither the model nor the spec explains gets
-   class 7 / 8, which is no listed finding: a different failure on such a program is still a violation.
-   (Classes 1-4 were the two findings of round 1, repaired in /repo.) *)
+(* v_class = 0 exactly inside the guard of C12_binds_exactly (the model is the present code, pre = false).
+   Outside it the listed finding is class 6 ONLY when the faithful model reproduces the observation bug for bug;
+   an observation outside the guard that neither the model nor the spec explains gets class 8, which is no listed
+   finding: a different failure on such a program is still a violation.
+   (Classes 1-5, 7 belonged to the three findings repaired in /repo.) *)
 Definition judge1 (c : case) : verdict :=
   let m := model_explains (auto_cli false conv_simple (c_aspos c) (c_comps c) (c_toks c)) (c_obs c) in
   {| v_model := m;
-     v_class := if negb (no_class_subcommand_param (c_comps c)) then (if m then 5%N else 7%N)
-                else if negb (no_nullish_str_default (c_comps c)) then (if m then 6%N else 8%N) else 0%N;
+     v_class := if negb (no_nullish_str_default (c_comps c)) then (if m then 6%N else 8%N) else 0%N;
      v_spec := spec_demands (spec conv_simple (c_aspos c) (c_comps c) (c_toks c)) (c_obs c) |}.
 
 Definition judge (cs : list case) := judge_all judge1 cs.
